@@ -151,11 +151,14 @@ pub struct Script {
     pub picture: Option<PictureServer>,
     /// writes after the peer closed: true = fail with BrokenPipe, false = succeed silently
     pub broken_pipe: bool,
+    /// instead of the standard greeting the peer sends exactly these bytes (segmented by `seg`) and closes
+    #[serde(default)]
+    pub greeting: Option<B>,
 }
 
 impl Script {
     pub fn new(steps: Vec<Step>) -> Script {
-        Script { sched_seed: 1, seg: SegPattern::Whole, replies: Vec::new(), steps, max_write: None, picture: None, broken_pipe: true }
+        Script { sched_seed: 1, seg: SegPattern::Whole, replies: Vec::new(), steps, max_write: None, picture: None, broken_pipe: true, greeting: None }
     }
 }
 
@@ -791,9 +794,18 @@ pub fn new_io(script: &Script, password: Option<Password>) -> (SimIo, Handle) {
     let h = Arc::new(Mutex::new(shared));
     {
         let mut s = h.lock().unwrap();
-        // the greeting is one read of its own; the case's pattern applies to everything after it
-        s.server_write(GREETING);
-        s.seg = script.seg.clone();
+        match &script.greeting {
+            None => {
+                // the greeting is one read of its own; the case's pattern applies to everything after it
+                s.server_write(GREETING);
+                s.seg = script.seg.clone();
+            }
+            Some(g) => {
+                s.seg = script.seg.clone();
+                let (_, end) = s.server_write(g);
+                s.eof_at = Some(end);
+            }
+        }
     }
     (SimIo(h.clone()), h)
 }
